@@ -458,7 +458,7 @@ func ruleP17ErrAbort(p *Prog, r *Report) {
 				return // P17-err decides discarded errors
 			}
 			if why, isEx := errAbortExceptions[fnName(outermost(f))]; isEx {
-				r.ok(rule, key, p.instrPos(c), "exception: "+why)
+				r.ok(rule, key, p.instrPos(c), "exception: %s", why)
 				return
 			}
 			tests := nilTestsOf(f, e)
